@@ -107,6 +107,10 @@ def _impl_segment(inp):
     clip, segs = _call(inp)
     _clip2, segs2 = _call(inp)          # determinism = two calls
     side = {}
+    num = inp.get("num", "float")
+    if (clip.start_time, clip.end_time, str(clip.uuid)) != (_f(inp["start"], num), _f(inp["end"], num), PARENTS[0]) \
+            or clip.recording is not _recording():
+        side["parent_mutated"] = True
     a = [(str(x.uuid), x.start_time, x.end_time) for x in segs]
     b = [(str(x.uuid), x.start_time, x.end_time) for x in segs2]
     if a != b:
@@ -159,6 +163,8 @@ def _holds_side(ctx, inp, io):
         return "two segments of one call share an identifier"
     if side.get("other_recording"):
         return "a segment belongs to another recording than its parent clip"
+    if side.get("parent_mutated"):
+        return "segment_clip changed its argument: the parent clip's bounds / uuid / recording differ after the call"
     if side.get("uuid_formula") and len(_UUID_FAILS) < 3:
         _UUID_FAILS.append(inp)
         ctx.fail("correspondence", "uuid_formula", inp=inp, impl=io,
